@@ -28,7 +28,8 @@ def litToks : Lit → List Tok
   | .int n => [.int n]
   | .real g =>
     let t := real2exp g
-    if t.all Char.isDigit then [.int (t.foldl (fun a c => 10 * a + (c.toNat - '0'.toNat)) 0)] else [.real t]
+    -- a real token carries the value (the `%#.15g` text `g`); the scanner's strtod is not modelled
+    if t.all Char.isDigit then [.int (t.foldl (fun a c => 10 * a + (c.toNat - '0'.toNat)) 0)] else [.real g]
   | .str s => [.str (escQ s)]
   | .estr s => [.estr s]
   | .bin s => [.bin (if ExpPrec.binaryPrintedFrom = ExpPrec.binaryStoredIn then s else "(null)")]
